@@ -602,6 +602,9 @@ func SolveAll(obls []*Obligation, timeout time.Duration, needAll bool, workers i
 				if o.Expect == "sat" && to > 2*time.Second {
 					to = 2 * time.Second // covers only need "not refutable"
 				}
+				if o.Quick && to > 10*time.Second {
+					to = 10 * time.Second
+				}
 				q := addUnfoldings(o.Decls, o.Query)
 				r := Solve(sliceDecls(o.Decls, q)+q, gv, to, needAll && o.Expect != "sat")
 				o.Result = &r
